@@ -455,6 +455,30 @@ theorem api_roundtrip {f : Fav} (h : Reachable f) :
   rw [canon_of_apiInv f hinv] at hl
   exact ⟨bytes, hs, hl⟩
 
+/-- the per-folder quotas keep EVERY counter of EVERY folder (at any depth) of every API-built tree inside
+its header field: the stored counters are the counts, lines and folders stay below 128 (`int8`), entries
+below 32768 (`int16`). -/
+theorem reachable_every_folder_within_int8 {f : Fav} (h : Reachable f) (path : List Nat) (g : Fav)
+    (hg : levelAt path f = some g) :
+    g.nB = cntB g.items ∧ g.nL = cntL g.items ∧ g.nF = cntF g.items
+      ∧ g.nL < 128 ∧ g.nF < 128 ∧ g.nB < 32768 := by
+  have hw := wf_levelAt path f g (reachable_fits h) hg
+  simp [wfFav] at hw
+  obtain ⟨⟨⟨⟨hB, hL⟩, hF⟩, hfit⟩, _⟩ := hw
+  obtain ⟨kb, kl, kf, _⟩ := fits_bounds hfit
+  exact ⟨hB, hL, hF, by omega, by omega, by omega⟩
+
+/-- the quota is the RECEIVING folder's: with 64 lines in a nested folder the add is refused there even
+though the root has none, and a root with 64 lines does not stop a nested folder from taking one. -/
+example :
+    (∀ g, addAt false .line [0] ⟨0, 0, 1, [.folder 1 1 [] 0 64 0 []]⟩ ≠ .added g)
+      ∧ (∃ g, addAt false .line [0] ⟨0, 64, 1, [.folder 1 1 [] 0 0 0 []]⟩ = .added g) := by
+  constructor
+  · intro g hadd
+    simp [addAt, addHere, neg8] at hadd
+  · exact ⟨_, by simp [addAt, addHere, neg8]; rfl⟩
+
+
 /-! #### non-vacuity -/
 
 /-- a three-level tree with an entry lacking the FAV bit. -/
